@@ -201,3 +201,36 @@ Theorem C17_no_mutable_package_state :
   StateInventory.rg_mutated g = false /\ StateInventory.rg_escapes g = false.
 Proof. apply StateInventory.pkg_state_ok_spec. vm_compute. reflexivity. Qed.
 Print Assumptions C17_no_mutable_package_state.
+
+(** The payload as MEMORY (round 8; model/Bip276Mem.v, proofs/Bip276MemProofs.v).  [BIP276.Data] is a Go slice: a
+    window of a buffer the caller owns, with a sibling payload or spare capacity inside its capacity.  For every
+    buffer and every window (any offset, length, capacity): the encoder leaves the buffer as it was and its text is
+    the text of the bytes the window denotes; so payloads that are adjacent windows of one buffer, encoded one after
+    the other, each get the text of what they held at the start — the round trip of the theorems above is about the
+    caller's data, not about a private copy.  [C17_appending_encoder_is_told_apart]: an encoder that appends the
+    checksum to the slice it was handed returns the right first text, overwrites the first four bytes of the next
+    payload, and encodes that one wrongly. *)
+From GoBT Require model.AsmArena model.Bip276Mem proofs.Bip276MemProofs.
+Theorem C17_encoder_leaves_callers_buffer : forall h c,
+  fst (Bip276Mem.encode_mem h c) = h /\
+  snd (Bip276Mem.encode_mem h c) = encode_bip276 (Bip276Mem.value_of h c).
+Proof. intros; split; [apply Bip276MemProofs.encode_mem_read_only | apply Bip276MemProofs.encode_mem_value]. Qed.
+Print Assumptions C17_encoder_leaves_callers_buffer.
+
+Theorem C17_sibling_payloads_in_sequence : forall h cs,
+  Bip276Mem.encode_seq_mem h cs = (h, map (fun c => encode_bip276 (Bip276Mem.value_of h c)) cs).
+Proof. exact Bip276MemProofs.encode_seq_mem_texts. Qed.
+Print Assumptions C17_sibling_payloads_in_sequence.
+
+Theorem C17_appending_encoder_is_told_apart :
+  snd (Bip276Mem.encode_mem_appending Bip276MemProofs.demo_buf (Bip276Mem.mkCall "bitcoin-script" 1 1 (AsmArena.Win 1 5 11))) =
+    encode_bip276 (mkBip276 "bitcoin-script" 1 1 [x76; xa9; x14; x88; xac]) /\
+  fst (Bip276Mem.encode_mem_appending Bip276MemProofs.demo_buf (Bip276Mem.mkCall "bitcoin-script" 1 1 (AsmArena.Win 1 5 11))) <>
+    Bip276MemProofs.demo_buf /\
+  nth 1 (snd (Bip276Mem.encode_seq_mem_appending Bip276MemProofs.demo_buf Bip276MemProofs.demo_calls)) "" <>
+    encode_bip276 (mkBip276 "bitcoin-script" 1 1 [x51; x52; x53; x54; x55]).
+Proof.
+  split; [exact Bip276MemProofs.appending_first_text |].
+  split; [exact Bip276MemProofs.appending_writes | exact Bip276MemProofs.appending_second_text_wrong].
+Qed.
+Print Assumptions C17_appending_encoder_is_told_apart.
